@@ -303,7 +303,13 @@ pub fn check_radial(c: &RadialCase) -> Check {
         .map_err(|e| Fail::new("radial:conversion-error", format!("into_radial(): {:?}", e)))?;
     ensure!(borrowed == consumed, "radial:borrowing-vs-consuming-differ", "radial() and into_radial() produce different radials");
     check_radial_against_spec(&c.drd, &msg, &borrowed)?;
+    // history: equality must not depend on what has been read from a radial.  The gate values of `borrowed` have now
+    // been read, those of a fresh consuming conversion (and of `consumed`) have not
+    let fresh = no_panic("Message::into_radial", || msg.clone().into_radial())?.map_err(|e| Fail::new("radial:conversion-error", format!("into_radial(): {:?}", e)))?;
+    ensure!(borrowed == fresh && fresh == borrowed, "radial:equality-depends-on-read-history", "a radial whose gate values have been read no longer equals a fresh conversion of the same message");
+    ensure!(borrowed == consumed, "radial:equality-depends-on-read-history", "radial() (values read) and into_radial() (values not read) of the same message compare unequal");
     check_radial_against_spec(&c.drd, &msg, &consumed)?;
+    ensure!(borrowed == consumed, "radial:borrowing-vs-consuming-differ", "radial() and into_radial() produce different radials");
     Ok(())
 }
 
